@@ -155,7 +155,15 @@ def run(chk):
                 d = quiet(oqupy.MeanFieldTempo(mfs, [bath], par, [rho0], 0.3 + 0j, s0).compute, s0 + N * dt + edge, progress_type="silent")
             else:
                 pt = quiet(oqupy.pt_tempo_compute, bath, s0, s0 + N * dt + 1e-9, parameters=par, progress_type="silent")
-                d = quiet(oqupy.compute_dynamics_with_field, mfs, 0.3 + 0j, process_tensor_list=[pt], initial_state_list=[rho0], start_time=s0, subdiv_limit=sub, record_all=rec, progress_type="silent")
+                # controls of the mean-field driver given as float times (every second case)
+                cl_ = None
+                if it % 2 == 1 or it == 3:
+                    c_ = Control(2)
+                    c_.add_single(float(s0 + 1.2 * dt), oqupy.operators.left_right_super(SX, SX), False)
+                    c_.add_single(float(s0 + 2.1 * dt), oqupy.operators.left_right_super(SY, SY), True)
+                    cl_ = [c_]
+                d = quiet(oqupy.compute_dynamics_with_field, mfs, 0.3 + 0j, process_tensor_list=[pt], initial_state_list=[rho0], start_time=s0, subdiv_limit=sub, record_all=rec,
+                          control_list=cl_, progress_type="silent")
             return list(d.times), np.append(np.array(d.system_dynamics[0].states).reshape(-1), d.fields)
         try:
             t0, v0 = build(start, 0.0)
